@@ -113,13 +113,16 @@ def all_chunks(lay):
     return lay["before"] + ([lay["id3"]] if lay["id3"] else []) + lay["after"]
 
 
-def gen_file(rng, dname):
-    """-> (bytes, kind, layout or None); layout only for the well-formed kinds"""
+IFF_KINDS = ["plain"] * 8 + ["sample", "no-final-pad", "truncated-last", "root-small", "root-big", "garbage-after",
+                                      "invalid-id", "container-bad", "multi-id3", "odd-ids", "tiny", "bad-root", "bad-form",
+                                      "root-size-lt4", "huge-chunk-size", "root-odd", "id3-pad-nonzero", "root-cut", "root-short"]
+
+
+def gen_file(rng, dname, kind=None):
+    """-> (bytes, kind, layout or None); layout only for the well-formed kinds; `kind` forces what is otherwise drawn"""
     d = DIALECTS[dname]
     hs = 4 + d["w"]
-    kind = rng.choice(["plain"] * 8 + ["sample", "no-final-pad", "truncated-last", "root-small", "root-big", "garbage-after",
-                                      "invalid-id", "container-bad", "multi-id3", "odd-ids", "tiny", "bad-root", "bad-form",
-                                      "root-size-lt4", "huge-chunk-size", "root-odd", "id3-pad-nonzero", "root-cut", "root-short"])
+    kind = kind or rng.choice(IFF_KINDS)
     lay = gen_plain(rng, d)
     data = render_file(d, lay["form"], all_chunks(lay))
     if kind == "plain":
@@ -383,9 +386,15 @@ def run(ctx, only=None):
     for dname in (only or ["aiff", "wave", "dsdiff"]):
         d = DIALECTS[dname]
         cls, delete_fn = classes[dname]
-        for i in range(n):
-            data, kind, lay = gen_file(rng, dname)
-            op = rng.choice(["save", "save", "save", "delete"])
+        # every kind of the generator once per operation first (a stratified pass), then the random draws
+        forced = [(kd, fop) for kd in sorted(set(IFF_KINDS)) if kd != "sample" for fop in ("save", "delete")]
+        for i in range(len(forced) + n):
+            if i < len(forced):
+                data, kind, lay = gen_file(rng, dname, kind=forced[i][0])
+                op = forced[i][1]
+            else:
+                data, kind, lay = gen_file(rng, dname)
+                op = rng.choice(["save", "save", "save", "delete"])
             desc = dict(fmt=dname, kind=kind, op=op, data=hx(data) if len(data) < 1500 else "len=%d" % len(data))
             f = io.BytesIO(data)
             offered = []
